@@ -4,3 +4,8 @@ set -e
 cd "$(dirname "$0")"
 ocamlfind ocamlopt -w -a -O2 -package str model.mli model.ml world_driver.ml driver.ml -o driver 2>/dev/null || \
 ocamlfind ocamlopt -w -a model.mli model.ml world_driver.ml driver.ml -o driver
+# C11: the extracted schema validator and its driver
+if [ -f schema_model.ml ]; then
+  ocamlfind ocamlopt -w -a -O2 schema_model.mli schema_model.ml schema_driver.ml -o schema_driver 2>/dev/null || \
+  ocamlfind ocamlopt -w -a schema_model.mli schema_model.ml schema_driver.ml -o schema_driver
+fi
